@@ -257,7 +257,7 @@ def eliminate_unused_imports(module_or_routine, used_symbols):
     if redundant_symbols:
         imprt_map = {}
         for im in imports:
-            if im.symbols is not None:
+            if im.symbols:
                 symbols = tuple(s for s in im.symbols if s not in redundant_symbols)
                 if not symbols:
                     # Symbol list is empty: Remove the import
